@@ -89,7 +89,7 @@ def uniq_name(rng, used):
     return n
 
 
-def gen_torrent(rng, idx, maxlen=12):
+def gen_torrent(rng, idx, maxlen=12, empties=False):
     single = rng.random() < 0.35
     name = rng.choice(NAMES) + b"%d" % idx if rng.random() < 0.8 else rng.choice(NAMES)
     L = rng.choice([1, 2, 3, 4, 4, 5, 6, 8])
@@ -110,7 +110,7 @@ def gen_torrent(rng, idx, maxlen=12):
                     files[-1].path[1] += b"0"
                 used.add(tuple(files[-1].path))
                 continue
-            n = rng.choice([0, 0, 1, 2, 3, 4, 5, 8, rng.randint(0, maxlen)])
+            n = rng.choice([0, 0, 1, 2, 3, 4, 5, 8, rng.randint(0, maxlen)]) if not empties else rng.choice([0, 0, 0, 1, 2, 3, 4, 6])
             depth = rng.choice([1, 1, 1, 2, 3])
             while True:
                 p = [rng.choice(DIRS) for _ in range(depth - 1)] + [uniq_name(rng, set())]
@@ -185,11 +185,13 @@ def corrupt(rng, content, how=None):
     return bytes(b)
 
 
-def gen_world(rng, ntorrents=None, allow_shared=True):
+def gen_world(rng, ntorrents=None, allow_shared=True, empties=False, export_heavy=False):
     w = World()
     nt = ntorrents or rng.choice([1, 1, 2, 2, 3])
     for i in range(nt):
-        t = gen_torrent(rng, i)
+        t = gen_torrent(rng, i, empties=empties)
+        if empties and t.single:
+            t = gen_torrent(rng, i, empties=empties)
         if any(t.info_hash == u.info_hash for u in w.torrents):
             continue
         w.torrents.append(t)
@@ -268,6 +270,8 @@ def gen_world(rng, ntorrents=None, allow_shared=True):
                 w.put_file(fresh_under(rng.choice(scan_roots), leaf), f.content + b"x")
             # prior export state
             st = rng.choice(["absent", "absent", "absent", "shorter", "exact-correct", "exact-partly", "exact-wrong", "longer"])
+            if export_heavy:
+                st = rng.choice(["absent", "shorter", "shorter", "shorter", "exact-correct", "exact-partly", "exact-wrong", "longer" if rng.random() < 0.25 else "shorter"])
             tgt = tuple(list(w.export) + t.rel_target(f))
             if st == "shorter" and f.length:
                 w.put_file(tgt, f.content[:rng.randrange(f.length)])
